@@ -688,3 +688,16 @@ package dawn
 //@   requires proj != nil && thread != nil
 //@   callsite CompileGlobs: assert compiles-its-own-lists: (arr($0) == arr(include) && len($0) == len(include)) || (arr($0) == arr(exclude) && len($0) == len(exclude))
 //@   modifies heap, sb, lx, n_compile, last_compiled, last_compiled_src
+
+// ---------------------------------------------------------------- C12/C14: the record path of a label
+// One file per label: the path is <work>/<kind>s/<escape(package-without-// + "/" + name)>, with
+// "target" for an empty kind and "BUILD.dawn" for an empty name. (Injectivity of the escaped
+// component is url.PathEscape's, assumed.)
+//@ func (*dawn.Project).targetInfoPath variant shape
+//@   requires proj != nil && l != nil && len(l.Package) >= 2
+//@   callsite PathEscape: assert escapes-package-and-name: $0 == cat(cat(sub(l.Package, 2, len(l.Package)), "/"), ite(l.Name == "", "BUILD.dawn", l.Name))
+//@   callsite Join: assert under-the-kind-directory: len($0) == 3 && $0[0] == proj.work && $0[1] == cat(ite(l.Kind == "", "target", l.Kind), "s") && $0[2] == targetPath
+//@ func (*dawn.sourceFile).load
+//@   requires f != nil && f.proj != nil && f.label != nil
+//@   retassert records-what-it-loaded: result == nil ==> (f.oldSum == info.Data && f.targetInfo.Data == info.Data && f.targetInfo.Rerun == info.Rerun)
+//@   modifies heap, n_json, json_failed
